@@ -554,3 +554,9 @@ func TestC05Lengths(t *testing.T) {
 	}
 	h.RunList(t, cases, c05CheckLen)
 }
+
+// The same checks with four cases at a time, one goroutine each (h.RunPar): no
+// hidden shared state in the scalar arithmetic (batch inversion, products and
+// sums allocate per call today).
+func TestC05ParSlices(t *testing.T) { h.RunPar(t, 4, c05GenSlice, c05CheckSlice) }
+func TestC05ParArith(t *testing.T)  { h.RunPar(t, 4, c05GenArith, c05CheckArith) }
